@@ -202,6 +202,8 @@ pub enum When {
 pub enum Action {
     Search { node: usize, info_hash: InfoHash, announce: bool, tag: String },
     Bootstrapped { node: usize, tag: String },
+    /// bootstrapped() whose future is dropped after `cancel_after_ms` if still pending
+    BootstrappedCancel { node: usize, tag: String, cancel_after_ms: u64 },
     GetState { node: usize, tag: String },
     LoadContacts { node: usize, tag: String },
     LocalAddr { node: usize, tag: String },
@@ -278,6 +280,8 @@ pub struct Scenario {
     pub fail_dst: Vec<SocketAddr>,
     /// every send_to of a real node takes this long (virtual ms)
     pub send_delay_ms: u64,
+    /// datagrams sent by this address within [from, to) are lost (an outage of its uplink)
+    pub blackhole: Vec<(SocketAddr, u64, u64)>,
 }
 
 impl Scenario {
@@ -299,6 +303,7 @@ impl Scenario {
             inject_menu: 0,
             fail_dst: vec![],
             send_delay_ms: 0,
+            blackhole: vec![],
         }
     }
 }
@@ -504,7 +509,8 @@ async fn run_inner(sc: &Scenario, mut peers: Vec<Box<dyn Peer>>, chooser: &mut d
                     let p = krpc::parse(&d.bytes);
                     (d, p)
                 };
-                let default = Fate::Deliver((sc.link_latency)(d.src, d.dst).max(1));
+                let lost = sc.blackhole.iter().any(|(a, from, to)| *a == d.src && d.sent_ms >= *from && d.sent_ms < *to);
+                let default = if lost { Fate::Drop } else { Fate::Deliver((sc.link_latency)(d.src, d.dst).max(1)) };
                 let is_eligible = sc.fates.len() > 1 && sc.eligible.as_ref().map_or(true, |f| f(&d, &parsed));
                 let fate = if is_eligible {
                     let pick = chooser.choose(&key, sc.fates.len());
@@ -639,6 +645,21 @@ async fn run_inner(sc: &Scenario, mut peers: Vec<Box<dyn Peer>>, chooser: &mut d
                                 let r = dht.bootstrapped().await;
                                 let t = (Instant::now() - start).as_millis() as u64;
                                 api.lock().unwrap().push(ApiEvent { t_ms: t, tag, kind: ApiKind::Resolved(r) });
+                            });
+                        }
+                    }
+                    Action::BootstrappedCancel { node, tag, cancel_after_ms } => {
+                        if let Some(dht) = dhts[*node].clone() {
+                            let api = api.clone();
+                            let tag = tag.clone();
+                            let after = *cancel_after_ms;
+                            api.lock().unwrap().push(ApiEvent { t_ms: now, tag: tag.clone(), kind: ApiKind::Started });
+                            tokio::task::spawn(async move {
+                                let r = tokio::time::timeout(Duration::from_millis(after), dht.bootstrapped()).await;
+                                let t = (Instant::now() - start).as_millis() as u64;
+                                if let Ok(r) = r {
+                                    api.lock().unwrap().push(ApiEvent { t_ms: t, tag, kind: ApiKind::Resolved(r) });
+                                }
                             });
                         }
                     }
